@@ -719,4 +719,48 @@ func Run(r *ev.Run) {
 	if done != total {
 		r.Cap(fmt.Sprintf("workers executed %d of %d cases", done, total))
 	}
+	retention(r)
+}
+
+// retention: memory is bounded per MESSAGE - nothing of a decoded message stays reachable from the package once the caller has
+// dropped it. 200 000 small messages with 200 000 distinct names are decoded and dropped; what the process holds afterwards
+// (heap in use after two collections) has grown by less than 4 MiB (an interning table, a memo keyed by name, a log grows by
+// ~100 octets per message: 20+ MiB).
+func retention(r *ev.Run) {
+	inUse := func() uint64 {
+		runtime.GC()
+		runtime.GC()
+		var ms runtime.MemStats
+		runtime.ReadMemStats(&ms)
+		return ms.HeapAlloc
+	}
+	mk := func(i int) []byte {
+		label := fmt.Sprintf("name-%07d-%s", i, strings.Repeat("x", 40))
+		m := []byte{byte(i >> 8), byte(i), 0x81, 0x80, 0, 1, 0, 1, 0, 0, 0, 0, byte(len(label))}
+		m = append(append(m, label...), 7, 'e', 'x', 'a', 'm', 'p', 'l', 'e', 0, 0, 1, 0, 1)
+		m = append(m, 0xc0, 12, 0, 1, 0, 1, 0, 0, 0, 60, 0, 4, 10, byte(i>>16), byte(i>>8), byte(i))
+		return m
+	}
+	for i := 0; i < 1000; i++ { // warm-up: one-time tables
+		dns.DecodeMessage(mk(i))
+	}
+	before := inUse()
+	const n = 200000
+	bad := 0
+	for i := 0; i < n; i++ {
+		if m, err := dns.DecodeMessage(mk(1000 + i)); err != nil || len(m.Answer) != 1 {
+			bad++
+		}
+	}
+	after := inUse()
+	oc := "retention: bounded"
+	if bad > 0 {
+		ev.ToolError("c12 retention: %d of the generated messages did not decode", bad)
+	}
+	if after > before && after-before > 4<<20 {
+		oc = "retention: grows with the number of messages decoded"
+		r.Violation("memory-retained-across-messages", fmt.Sprintf("after %d small messages with distinct names were decoded and dropped, the heap in use grew from %d to %d octets (%d per message): something keeps what was decoded", n, before, after, (after-before)/n), nil)
+	}
+	r.Eval("retention", oc)
+	r.Set("retention_messages", n)
 }
